@@ -102,3 +102,200 @@ harness!(c06_strict_subset_before_seconds_absolute, 40, { rel_int::<9>(85, false
 harness!(c06_strict_subset_softfork, 40, { rel_int::<5>(90, false) });
 harness!(c06_strict_subset_create_coin, 40, { rel_int::<2>(51, true) });
 harness!(c06_strict_subset_create_coin_atom_memo, 40, { rel_int::<9>(51, false) });
+
+// ---- order half, by composition -------------------------------------------------------------------
+// Every arm of the real parse_conditions is shown equal to `arm::spec_step` by the arm_* harnesses
+// (one inductive step from an arbitrary pre-state under the invariant of DESIGN.md s.8). Here the
+// solver decides that spec_step commutes: for every pre-state, every two conditions (any kinds,
+// any payloads, the same element or different ones) and every flag word, applying them in either
+// order gives the same verdict and, when accepted, the same summary scalars, collection sizes and
+// remaining cost. Together: swapping two adjacent conditions of a spend never changes acceptance,
+// cost or any aggregate -- hence (adjacent transpositions generate all permutations) no reordering
+// of a spend's conditions does. Error *codes* may differ between orders (whichever violation
+// comes first is reported); the property speaks of the verdict.
+use chia_consensus::validation_error::ErrorCode;
+
+fn any_snap() -> Snap {
+    let s = Snap {
+        reserve_fee: kani::any(),
+        height_absolute: kani::any(),
+        seconds_absolute: kani::any(),
+        before_height_absolute: kani::any(),
+        before_seconds_absolute: kani::any(),
+        cost: kani::any(),
+        execution_cost: kani::any(),
+        condition_cost: kani::any(),
+        removal_amount: kani::any(),
+        addition_amount: kani::any(),
+        n_agg_sig_unsafe: kani::any(),
+        n_spends: kani::any(),
+        validated_signature: kani::any(),
+        coin_amount: kani::any(),
+        height_relative: kani::any(),
+        seconds_relative: kani::any(),
+        before_height_relative: kani::any(),
+        before_seconds_relative: kani::any(),
+        birth_height: kani::any(),
+        birth_seconds: kani::any(),
+        flags: kani::any(),
+        s_execution_cost: kani::any(),
+        s_condition_cost: kani::any(),
+        n_create_coin: kani::any(),
+        n_agg0: kani::any(),
+        n_agg1: kani::any(),
+        n_agg2: kani::any(),
+        n_agg3: kani::any(),
+        n_agg4: kani::any(),
+        n_agg5: kani::any(),
+        n_agg6: kani::any(),
+        n_announce_coin: kani::any(),
+        n_announce_puzzle: kani::any(),
+        n_assert_coin: kani::any(),
+        n_assert_puzzle: kani::any(),
+        n_messages: kani::any(),
+        n_assert_concurrent_spend: kani::any(),
+        n_assert_concurrent_puzzle: kani::any(),
+        n_spent_coins: kani::any(),
+        n_spent_puzzles: kani::any(),
+        n_assert_ephemeral: kani::any(),
+        n_assert_not_ephemeral: kani::any(),
+        n_pkm: kani::any(),
+        max_cost: kani::any(),
+    };
+    // representation invariant (DESIGN.md s.8)
+    kani::assume(s.condition_cost.checked_add(s.max_cost).is_some());
+    kani::assume(s.s_condition_cost <= s.condition_cost);
+    kani::assume(s.addition_amount < (1u128 << 100));
+    if let (Some(a), Some(b)) = (s.seconds_relative, s.before_seconds_relative) {
+        kani::assume(a < b);
+    }
+    if let (Some(a), Some(b)) = (s.height_relative, s.before_height_relative) {
+        kani::assume(a < b);
+    }
+    let any_rel = s.height_relative.is_some()
+        || s.seconds_relative.is_some()
+        || s.before_height_relative.is_some()
+        || s.before_seconds_relative.is_some()
+        || s.birth_height.is_some()
+        || s.birth_seconds.is_some();
+    kani::assume(s.flags & HAS_REL != 0 || !any_rel);
+    // collection sizes are far from usize::MAX
+    kani::assume(s.n_spends < 1 << 40 && s.n_create_coin < 1 << 40 && s.n_pkm < 1 << 40 && s.n_messages < 1 << 40);
+    kani::assume(s.n_agg0 < 1 << 40 && s.n_agg1 < 1 << 40 && s.n_agg2 < 1 << 40 && s.n_agg3 < 1 << 40);
+    kani::assume(s.n_agg4 < 1 << 40 && s.n_agg5 < 1 << 40 && s.n_agg6 < 1 << 40 && s.n_agg_sig_unsafe < 1 << 40);
+    kani::assume(s.n_announce_coin < 1 << 40 && s.n_announce_puzzle < 1 << 40 && s.n_assert_coin < 1 << 40);
+    kani::assume(s.n_assert_puzzle < 1 << 40 && s.n_assert_concurrent_spend < 1 << 40 && s.n_assert_concurrent_puzzle < 1 << 40);
+    kani::assume(s.n_assert_ephemeral < 1 << 40 && s.n_assert_not_ephemeral < 1 << 40);
+    s
+}
+
+/// an arbitrary abstract condition together with a wire opcode that produces it
+fn any_ac() -> (AC, u16) {
+    let k: u8 = kani::any();
+    kani::assume(k < 30);
+    let op_any: u16 = kani::any();
+    match k {
+        0 => (AC::ReserveFee(kani::any()), 52),
+        1 => (AC::CreateCoin(kani::any(), kani::any()), 51),
+        2 => (AC::SecondsRelative(kani::any()), 80),
+        3 => (AC::SecondsAbsolute(kani::any()), 81),
+        4 => (AC::HeightRelative(kani::any()), 82),
+        5 => (AC::HeightAbsolute(kani::any()), 83),
+        6 => (AC::BeforeSecondsRelative(kani::any()), 84),
+        7 => (AC::BeforeSecondsAbsolute(kani::any()), 85),
+        8 => (AC::BeforeHeightRelative(kani::any()), 86),
+        9 => (AC::BeforeHeightAbsolute(kani::any()), 87),
+        10 => (AC::MyCoinId(kani::any()), 70),
+        11 => (AC::MyParentId(kani::any()), 71),
+        12 => (AC::MyPuzzlehash(kani::any()), 72),
+        13 => (AC::MyAmount(kani::any()), 73),
+        14 => (AC::MyBirthSeconds(kani::any()), 74),
+        15 => (AC::MyBirthHeight(kani::any()), 75),
+        16 => (AC::Ephemeral(kani::any()), 76),
+        17 => (AC::CreateCoinAnn(kani::any()), 60),
+        18 => (AC::CreatePuzzleAnn(kani::any()), 62),
+        19 => (AC::AssertCoinAnn(kani::any()), 61),
+        20 => (AC::AssertPuzzleAnn(kani::any()), 63),
+        21 => (AC::ConcurrentSpend(kani::any()), 64),
+        22 => (AC::ConcurrentPuzzle(kani::any()), 65),
+        23 => {
+            let c: u64 = kani::any();
+            kani::assume(c <= 0xffff_ffff * 10000);
+            (AC::Softfork(c), 90)
+        }
+        24 => {
+            let send: bool = kani::any();
+            (AC::Message(kani::any()), if send { 66 } else { 67 })
+        }
+        25 => (AC::Skip, op_any),
+        26 => {
+            kani::assume(op_any == 80 || op_any == 82 || op_any == 84 || op_any == 86);
+            (AC::SkipRelative, op_any)
+        }
+        _ => {
+            let idx: usize = kani::any();
+            kani::assume(idx <= 7);
+            let op = match idx {
+                0 => 50,
+                1 => 43,
+                2 => 44,
+                3 => 45,
+                4 => 46,
+                5 => 47,
+                6 => 48,
+                _ => 49,
+            };
+            (AC::AggSig(idx, kani::any(), kani::any()), op)
+        }
+    }
+}
+
+/// the "element already present" input of the second condition when the first one (same kind)
+/// inserted the same element
+fn after_same(c: AC) -> AC {
+    match c {
+        AC::CreateCoin(a, _) => AC::CreateCoin(a, true),
+        AC::Ephemeral(_) => AC::Ephemeral(true),
+        AC::CreateCoinAnn(_) => AC::CreateCoinAnn(true),
+        AC::CreatePuzzleAnn(_) => AC::CreatePuzzleAnn(true),
+        AC::AssertCoinAnn(_) => AC::AssertCoinAnn(true),
+        AC::AssertPuzzleAnn(_) => AC::AssertPuzzleAnn(true),
+        AC::ConcurrentSpend(_) => AC::ConcurrentSpend(true),
+        AC::ConcurrentPuzzle(_) => AC::ConcurrentPuzzle(true),
+        other => other,
+    }
+}
+
+#[kani::proof]
+#[kani::unwind(4)]
+fn c06_order_spec_step_commutes() {
+    let s0 = any_snap();
+    let flags: u32 = kani::any();
+    let (c1, op1) = any_ac();
+    let (c2, op2) = any_ac();
+    // `same`: both conditions name the same set element / the same new coin. Then they are equal
+    // as abstract conditions, and whichever comes second finds the element present.
+    let same: bool = kani::any();
+    if same {
+        kani::assume(c1 == c2 && op1 == op2);
+    }
+    let mut a = s0;
+    let mut ea = spec_step(&mut a, op1, c1, flags);
+    if ea.is_none() {
+        ea = spec_step(&mut a, op2, if same { after_same(c2) } else { c2 }, flags);
+    }
+    let mut b = s0;
+    let mut eb = spec_step(&mut b, op2, c2, flags);
+    if eb.is_none() {
+        eb = spec_step(&mut b, op1, if same { after_same(c1) } else { c1 }, flags);
+    }
+    assert!(ea.is_none() == eb.is_none(), "swapping two conditions never changes the verdict");
+    if ea.is_none() {
+        assert!(a == b, "swapping two conditions never changes cost or any aggregate of the summary");
+    }
+    kani::cover!(ea.is_none() && same);
+    kani::cover!(ea.is_none() && !same);
+    kani::cover!(ea == Some(ErrorCode::ImpossibleHeightRelativeConstraints) && eb == Some(ErrorCode::ImpossibleHeightRelativeConstraints));
+    kani::cover!(ea.is_some() && eb.is_some() && ea != eb);
+    kani::cover!(ea == Some(ErrorCode::CostExceeded));
+}
